@@ -1,4 +1,7 @@
 import Proofs.Lemmas.CountLaws
+import Proofs.Lemmas.CountLawsQtm
+import Proofs.Lemmas.CountLawsRead
+import Proofs.Props.C02Qtm
 import Proofs.Props.C07
 import Proofs.Props.C07Chm
 import Proofs.Props.C02Zip
@@ -12,28 +15,26 @@ import Proofs.Props.C02Lzx
   `= n` on MSPACK_ERR_OK for every state satisfying `ZipInv` (window = the 32 KiB frame; without it
   a frame can be shorter than `bytes_output` says and an OK call comes out short).
 * **LZX** (`Lzx.decompress`): both halves for every source, fuel and state — no invariant needed.
+* **Quantum** (`Qtm.decompress`): both halves for every source, fuel and state — no invariant needed.
 
-What the laws rest on (`Proofs/Lemmas/CountLaws.lean`): the decoders hand a thrown status back as
-the call's result, and no `throw`/`fail`/`read_input` site of the models carries MSPACK_ERR_OK
-(`Throws HaltOk`, proved by walking every helper of the two decoders); the rest is the arithmetic of
-the output loops.
+What the laws rest on (`Proofs/Lemmas/CountLaws.lean`, `CountLawsQtm.lean`): the decoders hand a
+thrown status back as the call's result, and no `throw`/`fail`/`read_input` site of the models carries
+MSPACK_ERR_OK (`Throws HaltOk`, proved by walking every helper of the three decoders); the rest is the
+arithmetic of the output loops (Quantum: `Bal T` — written + owed = request — is kept by every step,
+the two `writeOut n; out_bytes -= n` sites taken as one step each).
 
 Consequences:
-* `cabd_extract` (`C07.lean` is generic over `∀ dec, CountLaw files dec`, which no real decoder
-  satisfies in *every* state): re-proved over a decoder invariant that `initDec` establishes and
-  `decompress` keeps (`CabInv.extract_written_le`), and instantiated for stored, MSZIP and LZX
-  folders (`CabDecOk`; Quantum folders are what is left out).  The upper bound is unconditional;
-  "OK ⇒ complete" still carries `ReadErrLaw` (a decoder reporting READ has seen the feeder fail) as
-  a hypothesis, as in `C07.lean`.
+* `cabd_extract` (`C07.lean` is generic over `∀ dec, CountLaw files dec`, which MSZIP does not
+  satisfy in *every* state): re-proved over a decoder invariant that `initDec` establishes and
+  `decompress` keeps (`CabInv.extract_written_le`), and instantiated with `CabDecOk` (an MSZIP state
+  has its window; nothing asked of the others) for **every** compression type.  The upper bound is
+  unconditional.  "OK ⇒ complete" carries `ReadErrLaw` (a decoder reporting READ has seen the feeder
+  fail) as a hypothesis in general (`C07_cab_ok_complete_partial`); for **stored and MSZIP folders** it
+  is proved too, over a joint decoder/feeder invariant `CabJ` (feeder not in salvage mode, a sticky READ
+  goes with `readError ≠ OK`; `Proofs/Lemmas/CountLawsRead.lean`): `C07_cab_mszip_ok_complete` has no
+  hypothesis on the decoders left.
 * `chmd_extract`: `LzxBound` of `C07Chm.lean` is discharged (`C07_chm_written_le_unconditional`).
 * `oabd_decompress` / `_incremental`: `LzxCount` of `OabCount.lean` is discharged.
-
-Quantum: only the first ingredient is proved (`C07_qtm_status_not_ok_partial`: no status return of
-`qtmd_decompress`'s body carries OK, so an OK result comes from the normal exit).  The counting law
-itself needs the `written`/`out_bytes` bookkeeping threaded through `symbolLoop`/`blockLoop`
-(`Keeps (Bal T)` is proved for every helper below them in `CountLaws.lean`; the two
-`writeOut`-then-`out_bytes -= n` sites and the final write are what is open).  Hence `CabDecOk`
-excludes Quantum folders.
 -/
 
 /-! ## MSZIP -/
@@ -84,27 +85,40 @@ theorem C07_lzx_short_not_ok (fuel : Nat) (st : St σ) (n : Nat) (o : DecodeOut 
 
 end MsPack.Lzx
 
-/-! ## Quantum (partial) -/
+/-! ## Quantum -/
 namespace MsPack.Qtm
 open MsPack MsPack.CountLaws
 variable {σ : Type} (S : Src σ)
 
+/-- (a) `qtmd_decompress(qtm, n)` hands at most `n` bytes to `write` — every source, fuel, state -/
+theorem C07_qtm_written_le (fuel : Nat) (st : St σ) (n : Nat) (o : DecodeOut (St σ))
+    (h : decompress S fuel st n = .ok o) : o.written.length ≤ n :=
+  (CountLaws.Qtm.decompress_count S fuel st n o h).1
+
+/-- (b) … and exactly `n` if it returns MSPACK_ERR_OK — every source, fuel, state -/
+theorem C07_qtm_ok_complete (fuel : Nat) (st : St σ) (n : Nat) (o : DecodeOut (St σ))
+    (h : decompress S fuel st n = .ok o) (he : o.err = .ok) : o.written.length = n :=
+  (CountLaws.Qtm.decompress_count S fuel st n o h).2 he
+
+theorem C07_qtm_short_not_ok (fuel : Nat) (st : St σ) (n : Nat) (o : DecodeOut (St σ))
+    (h : decompress S fuel st n = .ok o) (hl : o.written.length < n) : o.err ≠ .ok :=
+  fun he => by have := C07_qtm_ok_complete S fuel st n o h he; omega
+
 /-- a status return out of the body of `qtmd_decompress` never carries MSPACK_ERR_OK -/
-theorem C07_qtm_status_not_ok_partial (fuel : Nat) (r r' : Run σ) (e : Err)
+theorem C07_qtm_status_not_ok (fuel : Nat) (r r' : Run σ) (e : Err)
     (h : (body S fuel).run.run r = (.error (.sys e), r')) : e ≠ .ok :=
   (CountLaws.Qtm.body_throws S fuel).out _ _ _ h
 
 end MsPack.Qtm
 
-/-! ## CAB: stored, MSZIP and LZX folders -/
+/-! ## CAB: every compression type -/
 namespace MsPack.Cab
 open MsPack MsPack.CountLaws MsPack.CountLaws.CabInv
 
-/-- the decoder states `cabd_extract` meets on stored / MSZIP / LZX folders: an MSZIP state has its
-    32 KiB window (`ZipInv`); Quantum is excluded (its counting law is not proved) -/
+/-- the decoder states `cabd_extract` meets: an MSZIP state has its 32 KiB window (`ZipInv`); the
+    other decoders' counting laws hold in every state -/
 def CabDecOk : Dec → Prop
   | .mszip st => Zip.ZipInv st
-  | .qtm _ => False
   | _ => True
 
 theorem C07_count_law_mszip (files : Files) (st : Zip.St Feeder) (hst : Zip.ZipInv st) :
@@ -131,11 +145,22 @@ theorem C07_count_law_lzx (files : Files) (st : Lzx.St Feeder) : CountLaw files 
     subst h
     exact CountLaws.Lzx.decompress_count (feederSrc files) _ _ n zo hz
 
+theorem C07_count_law_qtm (files : Files) (st : Qtm.St Feeder) : CountLaw files (.qtm st) := by
+  intro fd n o h
+  unfold decompress at h
+  simp only at h
+  split at h
+  · cases h
+  · rename_i zo hz
+    simp only [Except.ok.injEq, Option.some.injEq] at h
+    subst h
+    exact CountLaws.Qtm.decompress_count (feederSrc files) _ _ n zo hz
+
 theorem C07_count_law_decOk (files : Files) (dec : Dec) (h : CabDecOk dec) : CountLaw files dec := by
   cases dec with
   | none bs e => exact countLaw_none files bs e
   | mszip st => exact C07_count_law_mszip files st h
-  | qtm st => exact absurd h id
+  | qtm st => exact C07_count_law_qtm files st
   | lzx st => exact C07_count_law_lzx files st
   | unsupported k =>
     intro fd n o h'
@@ -186,7 +211,14 @@ theorem C07_decOk_kept (files : Files) : Kept files CabDecOk := by
       subst h
       refine Zip.C02_zip_decompress_inv (feederSrc files) _ _ n ?_ zo hz
       exact hp
-  | qtm st => exact absurd hp id
+  | qtm st =>
+    unfold decompress at h
+    simp only at h
+    split at h
+    · cases h
+    · simp only [Except.ok.injEq, Option.some.injEq] at h
+      subst h
+      trivial
   | lzx st =>
     unfold decompress at h
     simp only at h
@@ -199,8 +231,8 @@ theorem C07_decOk_kept (files : Files) : Kept files CabDecOk := by
     unfold decompress at h
     cases h
 
-/-- `cabd_init_decomp` on a folder that is not Quantum-compressed sets up a decoder in `CabDecOk` -/
-theorem C07_initDec_decOk (p : Params) (ct : Nat) (hq : compMask ct ≠ 2) (dec : Dec)
+/-- `cabd_init_decomp` sets up a decoder in `CabDecOk` -/
+theorem C07_initDec_decOk (p : Params) (ct : Nat) (dec : Dec)
     (h : initDec p ct = some dec) : CabDecOk dec := by
   unfold initDec at h
   split at h
@@ -211,7 +243,14 @@ theorem C07_initDec_decOk (p : Params) (ct : Nat) (hq : compMask ct ≠ 2) (dec 
       simp only [hi, Option.map_some, Option.some.injEq] at h
       subst h
       exact Zip.C02_zip_init_inv _ _ _ _ _ hi
-  · rename_i h2; exact absurd h2 hq
+  · split at h
+    · cases hi : Qtm.init nullFeeder ((ct >>> 8) &&& 0x1f) p.bufSize p.fill with
+      | none => simp [hi] at h
+      | some st =>
+        simp only [hi, Option.map_some, Option.some.injEq] at h
+        subst h
+        trivial
+    · cases h; trivial
   · split at h
     · cases hi : Lzx.init nullFeeder ((ct >>> 8) &&& 0x1f) 0 p.bufSize 0 false p.fill with
       | none => simp [hi] at h
@@ -222,33 +261,72 @@ theorem C07_initDec_decOk (p : Params) (ct : Nat) (hq : compMask ct ≠ 2) (dec 
     · cases h; trivial
   · cases h
 
-/-- **C07 for stored, MSZIP and LZX folders, no hypothesis on the decoders left**: whatever the
-    cabinet files, the parameters (strict or salvage) and a cached decoder in `CabDecOk` (none, or
-    what an earlier `extract` on such a folder left — see the second half), `cabd_extract` never
-    hands more than the member's declared length to the output; and the cache it leaves is in
-    `CabDecOk` again -/
-theorem C07_cab_mszip_written_le (files : Files) (p : Params) (d : Option DState) (m : Member)
-    (hq : compMask m.compType ≠ 2) (hd : CacheOk CabDecOk d)
-    (e : Err) (w : Bytes) (d' : Option DState)
+/-- **C07, every compression type, no hypothesis on the decoders left**: whatever the cabinet
+    files, the parameters (strict or salvage) and a cached decoder in `CabDecOk` (none, or what an
+    earlier `extract` left — see the second half), `cabd_extract` never hands more than the member's
+    declared length to the output; and the cache it leaves is in `CabDecOk` again -/
+theorem C07_cab_written_le (files : Files) (p : Params) (d : Option DState) (m : Member)
+    (hd : CacheOk CabDecOk d) (e : Err) (w : Bytes) (d' : Option DState)
     (h : extract files p d m = .done e (some w) d') : w.length ≤ m.length ∧ CacheOk CabDecOk d' :=
   CabInv.extract_written_le files CabDecOk (C07_count_law_decOk files) (C07_decOk_kept files) p d m hd
-    (C07_initDec_decOk p m.compType hq) e w d' h
+    (C07_initDec_decOk p m.compType) e w d' h
 
-/-- … in particular with no cached decoder -/
-theorem C07_cab_mszip_fresh_written_le (files : Files) (p : Params) (m : Member)
-    (hq : compMask m.compType ≠ 2) (e : Err) (w : Bytes) (d' : Option DState)
+/-- the same under the name the MSZIP instance was asked for -/
+theorem C07_cab_mszip_written_le (files : Files) (p : Params) (d : Option DState) (m : Member)
+    (hd : CacheOk CabDecOk d) (e : Err) (w : Bytes) (d' : Option DState)
+    (h : extract files p d m = .done e (some w) d') : w.length ≤ m.length ∧ CacheOk CabDecOk d' :=
+  C07_cab_written_le files p d m hd e w d' h
+
+/-- … in particular with no cached decoder: `C07_written_le_declared` of `C07.lean` without its hypothesis -/
+theorem C07_cab_fresh_written_le (files : Files) (p : Params) (m : Member)
+    (e : Err) (w : Bytes) (d' : Option DState)
     (h : extract files p none m = .done e (some w) d') : w.length ≤ m.length :=
-  (C07_cab_mszip_written_le files p none m hq (fun _ _ h => by cases h) e w d' h).1
+  (C07_cab_written_le files p none m (fun _ _ h => by cases h) e w d' h).1
 
-/-- strict mode, stored / MSZIP / LZX folders: MSPACK_ERR_OK implies exactly the declared number of
-    bytes.  The counting law is discharged; what is left as a hypothesis (as in
-    `C07_ok_means_complete_partial`) is `ReadErrLaw`, now only for the states in `CabDecOk`. -/
-theorem C07_cab_mszip_ok_complete_partial (files : Files) (hR : ∀ dec, CabDecOk dec → ReadErrLaw files dec)
+/-- strict mode, every compression type: MSPACK_ERR_OK implies exactly the declared number of bytes.
+    The counting law is discharged; what is left as a hypothesis (as in `C07_ok_means_complete_partial`)
+    is `ReadErrLaw`, now only for the states in `CabDecOk`. -/
+theorem C07_cab_ok_complete_partial (files : Files) (hR : ∀ dec, CabDecOk dec → ReadErrLaw files dec)
     (p : Params) (hs : p.salvage = false) (d : Option DState) (m : Member)
-    (hq : compMask m.compType ≠ 2) (hd : CacheOk CabDecOk d) (w : Bytes) (d' : Option DState)
+    (hd : CacheOk CabDecOk d) (w : Bytes) (d' : Option DState)
     (h : extract files p d m = .done .ok (some w) d') : w.length = m.length :=
   CabInv.extract_ok_complete files CabDecOk (C07_count_law_decOk files) hR (C07_decOk_kept files) p hs d m hd
-    (C07_initDec_decOk p m.compType hq) w d' h
+    (C07_initDec_decOk p m.compType) w d' h
+
+open MsPack.CountLaws.CabJoint in
+/-- **C07, OK means complete, stored and MSZIP folders, no hypothesis on the decoders left**: in strict
+    mode, whatever the cabinet files, with no cached decoder or one in `CabJ` (what a strict-mode
+    `extract` on such a folder sets up and every `decompress` call keeps: feeder not in salvage mode, a
+    sticky READ goes with a failed feeder, an MSZIP state has its window and input buffer),
+    MSPACK_ERR_OK implies exactly the declared number of bytes -/
+theorem C07_cab_mszip_ok_complete (files : Files) (p : Params) (hs : p.salvage = false)
+    (d : Option DState) (m : Member) (hct : compMask m.compType ≤ 1)
+    (hd : ∀ ds, d = some ds → StateOk CabJ ds) (w : Bytes) (d' : Option DState)
+    (h : extract files p d m = .done .ok (some w) d') : w.length = m.length :=
+  CabJoint.extract_ok_complete files CabJ (cabJ_callOk files) p hs d m hd
+    (fun key ds hf => fresh_stateOk files p hs m hct key ds hf) w d' h
+
+open MsPack.CountLaws.CabJoint in
+/-- the hypothesis on the cache is an invariant of strict-mode sessions on such folders: the cache
+    `extract` hands back, whatever the status, is in `CabJ` again -/
+theorem C07_cab_mszip_cache_kept (files : Files) (p : Params) (hs : p.salvage = false)
+    (d : Option DState) (m : Member) (hct : compMask m.compType ≤ 1)
+    (hd : ∀ ds, d = some ds → StateOk CabJ ds) (e : Err) (w : Option Bytes) (ds' : DState)
+    (h : extract files p d m = .done e w (some ds')) : StateOk CabJ ds' :=
+  CabJoint.extract_stateOk files CabJ (cabJ_callOk files) p d m hd
+    (fun key ds hf => fresh_stateOk files p hs m hct key ds hf) e w ds' h
+
+/-- … in particular with no cached decoder: no hypothesis but strict mode and the folder's method -/
+theorem C07_cab_mszip_fresh_ok_complete (files : Files) (p : Params) (hs : p.salvage = false)
+    (m : Member) (hct : compMask m.compType ≤ 1) (w : Bytes) (d' : Option DState)
+    (h : extract files p none m = .done .ok (some w) d') : w.length = m.length :=
+  C07_cab_mszip_ok_complete files p hs none m hct (fun _ h => by cases h) w d' h
+
+/-- the decoder's own READ report is backed by the feeder: `ReadErrLaw` of `C07.lean`, pointwise on `CabJ` -/
+theorem C07_cab_mszip_read_means_feeder_failed (files : Files) (dec : Dec) (fd : Feeder) (n : Nat) (o : DecOut)
+    (hj : CountLaws.CabJoint.CabJ dec fd) (h : decompress files dec fd n = .ok (some o)) (he : o.err = .read) :
+    o.feeder.readError ≠ .ok :=
+  (CountLaws.CabJoint.cabJ_callOk files dec fd n o hj h).2.2 he
 
 end MsPack.Cab
 
@@ -348,6 +426,15 @@ def lzxRun (n : Nat) : Option (Err × Bytes) :=
 example : lzxRun 5 = some (.ok, [104, 101, 108, 108, 111]) ∧ lzxRun 3 = some (.ok, [104, 101, 108]) ∧
     lzxRun 9 = some (.decrunch, [104, 101, 108, 108, 111]) := by decide +kernel
 
+def qtmRun (n : Nat) : Option (Err × Nat) :=
+  (Qtm.init (⟨Qtm.exampleInput, 0⟩ : Rd) 10 16 0xAA).bind fun st =>
+    match Qtm.decompress Rd.src 200 st n with
+    | .ok o => some (o.err, o.written.length)
+    | .error _ => none
+
+/-- Quantum, 24 input bytes: asked for 24 — OK and 24 bytes; asked for 10 — OK and 10 -/
+example : qtmRun 24 = some (.ok, 24) ∧ qtmRun 10 = some (.ok, 10) := by decide +kernel
+
 /-- a one-block MSZIP folder: CFDATA header (checksum 0 = not checked, 10 compressed, 3 uncompressed bytes)
     and the frame `CK` + one stored block `x y z` -/
 def cabFile : Bytes := [0, 0, 0, 0, 10, 0, 3, 0] ++ Zip.sampleStored
@@ -361,9 +448,8 @@ def runCab (len : Nat) : Option (Err × Option Bytes) :=
   | .done e w _ => some (e, w)
   | _ => none
 
-/-- `cabd_extract` on the MSZIP folder (hypotheses of `C07_cab_mszip_written_le`: `compMask 1 ≠ 2`, no
-    cache): a member declared 3 long — OK, 3 bytes; declared 5 — the 3 there are, and not OK -/
-example : compMask (cabMember 3).compType ≠ 2 ∧ runCab 3 = some (.ok, some [0x78, 0x79, 0x7A]) ∧
+/-- `cabd_extract` on the MSZIP folder (no cache): a member declared 3 long — OK, 3 bytes; declared 5 — the 3 there are, and not OK -/
+example : runCab 3 = some (.ok, some [0x78, 0x79, 0x7A]) ∧
     runCab 5 = some (.dataformat, some [0x78, 0x79, 0x7A]) := by decide +kernel
 
 end MsPack.C07Decoders
